@@ -1,7 +1,12 @@
-// Group `blockpairs`: src/block_parser.rs — pairing of block tags into blocks.
-// Units: P3 (BlockEnd::into_block), P1 (parse_blocks_from_comments), P2 (BlockStart::new /
-// source_position_at). Properties: C03 (pairing, content range, order, tag position),
-// C12 (unbalanced => Err), C10 (tag range), C04 (safety obligations of these units).
+// Group `blockpairs`: src/block_parser.rs — from the comments of a file to its blocks.
+// Units (all bodies are the real text of /repo):
+//   P3  BlockEnd::into_block (+ P3n Block::new)            content range / frame        C03, C10
+//   P2  BlockStart::source_position_at, P2s BlockStart::new (+ P2n Position::new)        C03, C10
+//   P4  PartialBlocksIterator::next, P4n ::new, P4e BlockEnd::new, T1/T2 WinnowBlockTagParser::{new,cursor}
+//       the tag-event sequence as a function of the comments (discharges P1's E14 iterator contract)
+//   P1  parse_blocks_from_comments                         LIFO pairing, Err iff unbalanced, order   C03, C12
+// C04: overflow/underflow, slicing preconditions, unwrap, termination of both loops.
+// Trusted: see blockpairs.notes.md.
 #![feature(allocator_api)]
 use vstd::prelude::*;
 use vstd::std_specs::iter::IteratorSpec;
@@ -12,11 +17,11 @@ use std::ops::{Range, RangeInclusive};
 use std::rc::Rc;
 
 //@include prelude/anyhow.rs
+//@include prelude/tstr_mod.rs
 
 verus! {
 
 //@include prelude/std_range.rs
-//@include prelude/strings.rs
 //@include prelude/blockp_strings.rs
 //@include prelude/blockp_types.rs
 
@@ -301,7 +306,7 @@ fn next(&mut self) -> (r: Option<anyhow::Result<PartialBlock>>)
             r matches Some(x) ==> old(self).pending().len() > 0 && x == old(self).pending()[0], // [P4.post.yields_next_event]
             r matches Some(Ok(_)) ==> final(self).pending() == old(self).pending().drop_first(), // [P4.post.rest_follows]
             r matches Some(Ok(_)) ==> lex_lt(final(self).measure(), old(self).measure()), // [P4.post.progress]
-            final(self).measure().0 >= 0 && final(self).measure().1 >= 0 && final(self).measure().2 >= 0,
+            final(self).measure().0 >= 0 && final(self).measure().1 >= 0 && final(self).measure().2 >= 0, // [P4.post.measure_nonneg]
 //@edit rule=ghost after=<<loop>>
             invariant
                 self.wf(),
@@ -521,6 +526,7 @@ proof fn lemma_pairing_wf(ev: Seq<anyhow::Result<PartialBlock>>, k: int)
         r is Ok <==> balanced(tag_events(comments)), // [P1.post.ok_iff_balanced]
         r matches Ok(v) ==> v@.to_multiset() == pair_blocks(tag_events(comments), tag_events(comments).len() as int).to_multiset(), // [P1.post.blocks_are_the_lifo_pairs]
         r matches Ok(v) ==> v@.len() == count_starts(tag_events(comments), tag_events(comments).len() as int), // [P1.post.one_block_per_start_tag]
+        r is Ok ==> pairing_wf(tag_events(comments), tag_events(comments).len() as int), // [P1.post.pairing_is_one_to_one]
         r matches Ok(v) ==> forall|i: int, j: int| 0 <= i < j < v@.len() ==> // [P1.post.sorted_by_start_tag]
             pos_le((#[trigger] v@[i]).start_tag_position_range@.start, (#[trigger] v@[j]).start_tag_position_range@.start),
 //@macro rule=E1 name=anyhow to=<<anyhow::verif_err()>>
@@ -559,13 +565,7 @@ None => { break; } } }
         assert(stack_after(ev, k)->Some_0 =~= Seq::<int>::empty()); // [P1.proof.no_open_block_left]
         lemma_ok_prefix(ev, k);
         lemma_count(ev, k);
-        blocks@.to_multiset_ensures();
-    }
-    let ghost before_sort = blocks@;
-//@edit rule=ghost before=<<Ok(blocks)>>
-    proof {
-        blocks@.to_multiset_ensures();
-        before_sort.to_multiset_ensures();
+        lemma_pairing_wf(ev, k);
     }
 //@edit rule=ghost before=<<return Err(>> nth=0 of=2
                     proof { lemma_error_is_sticky(ev, k, ev.len() as int); }
